@@ -264,7 +264,7 @@ class Run:
         return 1 if self.violations else 0
 
 
-def coqchk(hand_files, timeout=1500):
+def coqchk(hand_files, timeout=3000):
     """Independent re-check of the compiled hand-written files of a property (thorough tier): returns
     (ok, summary dict with axioms / type-in-type / unsafe fixpoints / assumed positivity, raw tail)."""
     mods = ["UFLV." + f[:-2].replace("/", ".") for f in hand_files]
@@ -280,6 +280,9 @@ def coqchk(hand_files, timeout=1500):
                      ("assumed_positivity", r"positivity is assumed:(.*?)(?:\n\s*\n|$)")):
         m = re.search(pat, txt, flags=re.S)
         summ[key] = re.sub(r"\s+", " ", m.group(1)).strip() if m else "?"
+    if rc in (124, 137) or (rc != 0 and not txt.strip()):
+        # killed by the time limit (loaded machine): not a verdict about the development, which coqc accepted
+        return None, summ, f"coqchk did not finish within {timeout} s"
     return rc == 0, summ, txt[-600:]
 
 
